@@ -128,7 +128,7 @@ impl Property for C04 {
         vec!["my reader/writer encode the layout exactly as the property statement lists it (tags, widths, little endian, byte-length strings, opcode numbers 0x00 label .. 0x10 drop)".into()]
     }
     fn random_cases(&self, tier: Tier) -> u64 {
-        tier.pick(80_000, 4_000_000)
+        tier.pick(240_000, 6_000_000)
     }
     fn max_tape(&self) -> usize {
         900
@@ -197,6 +197,34 @@ impl Property for C04 {
             // and the compiler's program, re-encoded independently, must load as itself
             let proj = project(&p).map_err(|e| Violation::new("projection-failed", e, case()))?;
             reader_conformance(&proj.model, &case, ctx)?;
+            // the file as the command line emits it (`fml parse -o`, `fml compile -o`), written again
+            // and again to the SAME path by programs of different sizes: it must be exactly the
+            // image, with nothing left over from an earlier, longer file
+            if tape_sample(tape, ctx.tier.pick(120, 60)) {
+                let dir = std::path::PathBuf::from(std::env::var("FMLV_WORK").unwrap_or_else(|_| "/verif/.work".into())).join(format!("C04-scratch-{}", std::process::id()));
+                let _ = std::fs::create_dir_all(&dir);
+                let fsrc = dir.join("p.fml");
+                let fast = dir.join("p.json");
+                let fbc = dir.join("p.bc");
+                let bin = crate::cli::fml_release();
+                if std::fs::write(&fsrc, &src).is_ok() {
+                    let p1 = crate::cli::run_fml(&bin, &["parse", fsrc.to_str().unwrap(), "-o", fast.to_str().unwrap()]);
+                    let p2 = crate::cli::run_fml(&bin, &["compile", fast.to_str().unwrap(), "-o", fbc.to_str().unwrap()]);
+                    if let (Ok(a), Ok(b)) = (p1, p2) {
+                        if a.status.success() && b.status.success() {
+                            ctx.label("cli-compile-to-reused-path");
+                            let file = std::fs::read(&fbc).unwrap_or_default();
+                            let image = fmlrun::serialize(&p).unwrap_or_default();
+                            if let Err(e) = reader::read(&file) {
+                                return ctx.settle(Violation::new("writer-layout", format!("the file written by `fml compile -o` does not follow the layout: {} ({} bytes on disk, image {} bytes)", e, file.len(), image.len()), case()).with("origin", "cli"));
+                            }
+                            if file != image {
+                                return ctx.settle(Violation::new("writer-layout", format!("the file written by `fml compile -o` ({} bytes) differs from the image of the same program ({} bytes)", file.len(), image.len()), case()).with("origin", "cli"));
+                            }
+                        }
+                    }
+                }
+            }
             ctx.sample(src.len(), || json!({"domain": "A", "source": render::pretty(&g.prog)}));
             Ok(())
         } else {
